@@ -33,10 +33,19 @@ CHECKS = {
     design_ref="DESIGN.md section 6 (C02)", note=_MEM_NOTE,
     technique="Coq proof: reverse loop invariants ('no match at or after cur'), parametric as C01 + trace-level differential correspondence",
  ),
+ "C06": dict(
+    text="C06_run: for every backend, needle set, haystack, start address and every history of next/next_back/size_hint/count calls the "
+         "modelled iterator produces exactly what a double-ended queue of the match positions produces (next pops the front, next_back "
+         "the back, None once empty and forever after, size_hint brackets the queue length); C06_queue_contents/C06_queue_sorted: the "
+         "queue holds exactly the matching positions, strictly ascending (hence no position twice). Proved by refinement "
+         "(abstraction function absw: window -> queue) on top of C01/C02 for sub-windows at arbitrary alignment.",
+    design_ref="DESIGN.md section 6 (C06)", note=_MEM_NOTE,
+    technique="Coq proof: refinement of the iterator state machine to a deque, induction over operation histories + differential correspondence on histories",
+ ),
  "C07": dict(
     text="C07_generic / C07_backend: gen_count (scalar head to alignment, unrolled popcounts, vector loop, scalar tail) returns "
          "count_p for all widths/alignments and both mask representations (popcount law incl. the NEON one-bit-per-nibble mask); "
-         "SWAR byte loop; wrappers. The iterator part (count on a partially consumed iterator) is decided with C06's iterator model.",
+         "SWAR byte loop; wrappers. C07_iter_count: count() in any reachable iterator state returns the length of the remaining queue (matches not yet yielded).",
     design_ref="DESIGN.md section 6 (C07)", note=_MEM_NOTE,
     technique="Coq proof: counting invariant acc = count_p (firstn cur h) + trace-level differential correspondence",
  ),
